@@ -404,10 +404,13 @@ def main(argv=None):
             print("HARNESS-ERROR: %s" % h)
     if violations:
         seen = set()
+        seen_sig = set()
         for sig, detail, path in violations:
-            print("  signature=%s\n  %s" % (sig, str(detail)[:2000]))
+            if sig not in seen_sig:
+                print("  signature=%s\n  %s" % (sig, str(detail)[:900]))
+                seen_sig.add(sig)
             if path not in seen:
-                print("VIOLATION property=%s replay=%s" % (prop_id, path))
+                print("VIOLATION property=%s replay=%s  (signature=%s)" % (prop_id, path, sig))
                 seen.add(path)
         return 1
     if harness_errors:
